@@ -2,28 +2,43 @@
 import glob, json, os
 import vlib
 
-TARGETS = ["Base/Corr.vo", "C19/Model.vo", "C19/ModelP.vo", "C19/Corr.vo", "C19/Spec.vo", "C19/SpecTest.vo",
+TARGETS = ["Base/Corr.vo", "C19/Model.vo", "C19/ModelP.vo", "C19/ModelW.vo", "C19/Corr.vo", "C19/Spec.vo", "C19/SpecTest.vo",
            "C19/ProofsRot.vo", "C19/ProofsList.vo", "C19/ProofsLookup.vo", "C19/ProofsIns.vo", "C19/ProofsDel.vo",
            "C19/ProofsRun.vo", "C19/ProofsIter.vo", "C19/ProofsIds.vo", "C19/ProofsPar.vo", "C19/ProofsNext.vo", "C19/Proofs.vo",
-           "C19/Props.vo"]
-PROPS = ["C19/Props.v"]
-PARTIAL = ("Proved in Coq for ALL operation histories with int64 keys, about the hand-written model coq/C19/Model.v: "
+           "C19/Props.vo",
+           "C19/ProofsW1.vo", "C19/ProofsW2.vo", "C19/ProofsW3.vo", "C19/ProofsW4.vo", "C19/ProofsFlag.vo",
+           "C19/ProofsW6.vo", "C19/ProofsW5.vo", "C19/PropsW.vo"]
+PROPS = ["C19/Props.v", "C19/PropsW.v"]
+PARTIAL = ("Proved in Coq for ALL operation histories with int64 keys. About the value-level world model coq/C19/Model.v: "
            "(1) every tree of every reachable world is a search tree whose balance fields equal the height difference "
            "and lie in -1..1 (hence 2^(h/2) <= n+1); (2) the whole observable run (Insert/Delete flags, FindNode, "
            "FindNodeLE, Clone, key lists, iterator creation/clone/Next incl. live iterators under interleaved "
            "Insert/Delete/Clone and the MaxInt cursor) equals the run of the set-level specification; complete "
            "iterations visit exactly the keys (>= i for IteratorFrom) ascending; (3) insert/delete refine sadd/sdel "
-           "with exact flags and height change; (4) node ids stay distinct, tombstones are disjoint from live nodes and "
-           "an iterator's node is always live or tombstoned; (5) for all Insert/Delete histories the pointer-level model "
-           "coq/C19/ModelP.v (Parent updated where avl-tree.go does it) keeps stored parent = structural parent and "
-           "erases to Model.v, and the transliterated successor walk of AvlIterator.Next through the stored Parent "
-           "pointers equals the structural successor used by Model.v. NOT proved: ModelP.v covers one tree under "
-           "Insert/Delete (Clone's pointer copying is modelled in Model.v as sharing the immutable tree value; the "
-           "world-level iterator model uses the structural successor, justified by (5)). Model.v/ModelP.v are tied to the implementation by the "
-           "correspondence only (every step of every generated history: flags, values, checksum of the preorder dump "
-           "of Value/Balance/Parent value; the harness also rejects any step where Go's stored Parent differs from the "
-           "structural parent or a reachable node is flagged Deleted). int is modelled as Z with the int64 wrap written "
-           "explicitly where the code computes value+1.")
+           "with exact flags and height change; (4) node ids stay distinct, tombstones are disjoint from live nodes. "
+           "About the pointer-level world model coq/C19/ModelW.v (one heap of node objects with a global allocator, "
+           "several trees with STORED Parent pointers updated where avl-tree.go updates them, Clone's pointer copying "
+           "incl. the copied Parent field of the root, unlinked objects kept with Deleted=true and their stale pointers, "
+           "iterators holding a node pointer, Next with its three branches): (5) in every reachable world stored parents "
+           "= structural parents in every tree, the regions of different trees are address-disjoint, every pointer stored "
+           "in a region (incl. stale ones of tombstones) points into that region, iterators never dangle; (6) Clone "
+           "allocates only fresh objects, its stored parents are those of the clone, it holds no pointer into the source, "
+           "and any step / history not mutating tree j leaves tree j's heap cells unchanged (frame); (7) the pointer-level "
+           "Next equals the value-level Next, the climb through stored parents is taken only from a reachable, untombstoned "
+           "node with unchanged value, and the pointer-level world refines the set specification for every history "
+           "(hence observes what Model.v observes); (8) Deleted flag: delete flags the found object in all three cases, the "
+           "flagged object is exactly the one leaving the reachable set, a cell is flagged iff unreachable, regions never "
+           "lose objects; (9) the balanced flag of insert/delete/deleteRec/balance1/balance2 is true iff the subtree height "
+           "did not change, with balance1/balance2's flag given per branch. NOT proved: the step from the literal "
+           "setLeft/setRight statement sequences of avl-tree.go to the tree-shaped pointer model (ModelP.protLL etc.) — "
+           "the models are tied to the implementation by the correspondence only: every step of every generated history is "
+           "compared on flags, values, tree checksum, key lists and on a checksum of the WHOLE heap as Go has it (node "
+           "identities numbered in allocation order, Left/Right/Parent pointers, Deleted flags, unlinked objects with the "
+           "fields they were left with, the node pointer of every iterator via the add-only hook verif_c19.go). The "
+           "refinement ModelW -> Model is an equation for every step other than Clone (erase(pwstep w o) = step(erase w) o on "
+           "trees, tombstones, iterators and the complete output, up to Model.v's per-tree allocation counters) and "
+           "observational across Clone (same output, shape-equal appended tree; both worlds refine the set specification) "
+           "because Model.v's Clone reuses node ids while the pointer model allocates fresh objects. int is modelled as Z with the int64 wrap written explicitly where the code computes value+1.")
 
 
 def corr(ctx, binary, n, corpus):
@@ -34,7 +49,9 @@ def corr(ctx, binary, n, corpus):
         return []
     meta = json.load(open(os.path.join(ctx.dir, "cases.meta.json")))
     vlib.merge_meta(ctx, meta)
-    shards = sorted(glob.glob(os.path.join(ctx.dir, "cases_*.v")))
+    # numeric order (cases_10.v sorts after cases_9.v): mismatch indices are mapped back to cases.jsonl
+    shards = sorted(glob.glob(os.path.join(ctx.dir, "cases_*.v")),
+                    key=lambda p: int(os.path.basename(p)[len("cases_"):-2]))
     res = vlib.eval_shards(shards)
     ctx.oblige(len(res), sum(1 for r in res if r["ok"]))
     cases = vlib.load_jsonl(os.path.join(ctx.dir, "cases.jsonl"))
@@ -83,8 +100,9 @@ def run(ctx):
     ctx.cov["partial"] = PARTIAL
     ok, failures = vlib.proof_stage(ctx, TARGETS, PROPS)
     thms = vlib.theorem_names(os.path.join(vlib.COQ, "C19/Props.v"))
+    thmsw = vlib.theorem_names(os.path.join(vlib.COQ, "C19/PropsW.v"))
     if ok:
-        ctx.cov["print_assumptions"] = vlib.print_assumptions("C19", [("C19.Props", thms)], ctx.dir)
+        ctx.cov["print_assumptions"] = vlib.print_assumptions("C19", [("C19.Props", thms), ("C19.PropsW", thmsw)], ctx.dir)
     binary, blog = vlib.build_harness("c19")
     if binary is None:
         ctx.violation({"obligation": "build of harness/c19 against /repo", "log": blog[-3000:]}, False,
